@@ -31,6 +31,29 @@ def release_lane(lanes_arg=None):
     return {"name": "release-profile", "tiers": ("thorough",), "run": run}
 
 
+def features_lane(lane, label, cargo_features):
+    """Same lane, harness (and therefore ldap3) rebuilt with another legal feature selection: here the
+    TLS backend named directly (`sync,tls-native`) instead of through the default-on alias `tls`.
+    A build failure is a harness failure (exit 2), not a verdict."""
+    def run(c):
+        import os, subprocess
+        tdir = os.path.join(c["target"], "features-" + label)
+        env = dict(c["env"], CARGO_TARGET_DIR=tdir)
+        cmd = ["cargo", "build", "--offline", "--profile", "verif", "--bin", "vcheck", "--no-default-features", "--features", cargo_features]
+        p = subprocess.run(cmd, cwd=c["harness"], env=env, stdout=subprocess.PIPE, stderr=subprocess.STDOUT, text=True)
+        if p.returncode != 0:
+            return None, "build with --no-default-features --features %s failed: %s" % (cargo_features, p.stdout[-600:])
+        binpath = os.path.join(tdir, "verif", "vcheck")
+        out = os.path.join(c["evid"], ".tmp", "%s.features-%s.json" % (c["pid"], label))
+        cmd = [binpath, c["pid"], "--tier", c["tier"], "--seed", str(c["seed"] + 2000), "--lane", lane, "--out", out, "--scale", "0.34"]
+        doc, note = c["run_lane_cmd"](cmd, out, 3600)
+        if doc:
+            for l in doc["lanes"]:
+                l["lane"] = "features[%s]/%s" % (cargo_features, l["lane"])
+        return doc, note
+    return {"name": "features-" + label, "tiers": ("quick", "thorough"), "run": run}
+
+
 def miri_lane(scale="1"):
     """Same binary under Miri (UB + data-race interpreter), tiny sizes, several scheduler seeds."""
     def run(c):
@@ -126,7 +149,7 @@ prop("C09",
 
 prop("C15",
      title="SearchEntry::construct keeps every attribute value and classifies it correctly",
-     rule="random entries (0-8 distinct attributes, 0-6 values each, values valid UTF-8 (incl. empty, NUL, 4-byte) or invalid UTF-8 (overlong, surrogate, truncated, stray continuation, 5-byte) in any order), BER-encoded by the harness with random length forms, parsed by lber and passed to SearchEntry::construct; attribute descriptions carry real options (;binary, ;lang-en;BINARY, ;x-opt) since classification depends on the values only; plus all 127 valid/invalid orderings of 0..6 values for one attribute; through_connection lane: the same oracle on entries that travelled through search() on the in-memory transport, one in three with a 17-300 KB value. Oracle: DN equal, each attribute in exactly one map, text map iff all values valid UTF-8 with values in order, else binary map holds the same multiset. distinct = distinct encoded entries through_connection lane: entries encoded with random legal length forms, sent in random segmentations (whole / random / byte by byte), one case in four with a wide entry (96-495 values in one attribute or 96-245 attributes), one in three with a value of up to 300 KB.",
+     rule="random entries (0-8 distinct attributes, 0-6 values each, values valid UTF-8 (incl. empty, NUL, 4-byte) or invalid UTF-8 (overlong, surrogate, truncated, stray continuation, 5-byte) in any order), BER-encoded by the harness with random length forms, parsed by lber and passed to SearchEntry::construct; attribute descriptions carry real options (;binary, ;lang-en;BINARY, ;x-opt) since classification depends on the values only; plus all 127 valid/invalid orderings of 0..6 values for one attribute; through_connection lane: the same oracle on entries that travelled through search() on the in-memory transport, one in three with a 17-300 KB value. Oracle: DN equal, each attribute in exactly one map, text map iff all values valid UTF-8 with values in order, else binary map holds the same multiset. distinct = distinct encoded entries through_connection lane: entries encoded with random legal length forms, sent in random segmentations (whole / random / byte by byte), one case in four with a wide entry (96-495 values in one attribute or 96-245 attributes), one in three with a value of up to 300 KB. The through_connection search runs under a message ID anywhere in 1..2^31-1 (counter positioned with the ID hook, biased to octet boundaries).",
      claim="held on every generated entry; exhaustive over valid/invalid orderings of up to 6 values",
      design="3/C15", technique="pure-function monitor with a reference classifier over generated search entries",
      note="attribute names are distinct within an entry (as RFC 4511 requires of a server)")
@@ -151,7 +174,7 @@ prop("C03",
 
 prop("C02",
      title="Each request on the wire is exactly the RFC 4511 PDU the caller asked for",
-     rule="requests lane: per case one in-memory connection and 1-9 calls over all eleven operations (simple bind, SASL EXTERNAL, search with generated filter ASTs/attribute lists/every scope, deref, typesOnly and limit values, add, compare, delete, modify with every Mod variant, modifyDN with/without newSuperior, extended with/without value, abandon of arbitrary positive IDs, unbind) with arbitrary UTF-8 DNs, binary values, empty and 300-1000-element lists, values up to 100 KB and 0-5 request controls (known and random OIDs, criticality, value present/absent); the bytes the scripted server reads are decoded by the harness' strict RFC 4511 decoder (one definite-length LDAPMessage, shortest-form INTEGERs, BOOLEAN 00/FF, DEFAULT criticality not encoded, nothing trailing) and compared field by field with a request model built from the arguments (SET OF as multisets), the message ID with last_id() and the ID table. composed_requests lane (requests the library composes itself): every page request of a PagedResults search (alone / behind EntriesOnly, 1-12 entries in pages of 1-5) must be the caller's search again - same base, scope, deref/size/time/typesOnly options, filter, attributes and caller controls - plus exactly one paging control with the requested size and the cookie last returned; extended operations built from the typed structs (PasswordModify with all 8 present/absent field combinations, WhoAmI, StartTxn) and controls built from typed structs (ProxyAuth, ManageDsaIT +/- critical, PreRead/PostRead with 0-13 attributes, RelaxRules, TxnSpec) are sent through the real connection and compared with RFC-derived reference encodings. cloned_handles lane: controls / a timeout / search options are set on a handle as separate statements, the handle is cloned, an operation runs on the clone (must carry none of them and must not inherit the timeout) and then one on the original (must carry exactly what was set). The composed lane also covers SyncRequest (mode x cookie absent/empty/present x reloadHint, +/- critical) and EndTxn. modifiers lane: random histories of with_controls / with_timeout / with_search_options followed by normal operations or locally failing ones (add/modify with an empty value set, invalid filter, paging-control clash) with scripted reply delays; every operation must show exactly its own modifiers, time out iff its own timeout is shorter than the reply delay, and locally failed operations must not reach the wire. distinct = distinct wire transcripts / distinct step sequences In the modifiers lane half of the delayed Search answers arrive in two parts (one entry at once, the result after the delay), so that a timeout set for a Search has to govern every wait of that Search, not only the first.",
+     rule="requests lane: per case one in-memory connection and 1-9 calls over all eleven operations (simple bind, SASL EXTERNAL, search with generated filter ASTs/attribute lists/every scope, deref, typesOnly and limit values, add, compare, delete, modify with every Mod variant, modifyDN with/without newSuperior, extended with/without value, abandon of arbitrary positive IDs, unbind) with arbitrary UTF-8 DNs, binary values, empty and 300-1000-element lists, values up to 100 KB and 0-5 request controls (known and random OIDs, criticality, value present/absent); the bytes the scripted server reads are decoded by the harness' strict RFC 4511 decoder (one definite-length LDAPMessage, shortest-form INTEGERs, BOOLEAN 00/FF, DEFAULT criticality not encoded, nothing trailing) and compared field by field with a request model built from the arguments (SET OF as multisets), the message ID with last_id() and the ID table. composed_requests lane (requests the library composes itself): every page request of a PagedResults search (alone / behind EntriesOnly, 1-12 entries in pages of 1-5) must be the caller's search again - same base, scope, deref/size/time/typesOnly options, filter, attributes and caller controls - plus exactly one paging control with the requested size and the cookie last returned; extended operations built from the typed structs (PasswordModify with all 8 present/absent field combinations, WhoAmI, StartTxn) and controls built from typed structs (ProxyAuth, ManageDsaIT +/- critical, PreRead/PostRead with 0-13 attributes, RelaxRules, TxnSpec) are sent through the real connection and compared with RFC-derived reference encodings. cloned_handles lane: controls / a timeout / search options are set on a handle as separate statements, the handle is cloned, an operation runs on the clone (must carry none of them and must not inherit the timeout) and then one on the original (must carry exactly what was set). The composed lane also covers SyncRequest (mode x cookie absent/empty/present x reloadHint, +/- critical) and EndTxn. modifiers lane: random histories of with_controls / with_timeout / with_search_options followed by normal operations or locally failing ones (add/modify with an empty value set, invalid filter, paging-control clash) with scripted reply delays; every operation must show exactly its own modifiers, time out iff its own timeout is shorter than the reply delay, and locally failed operations must not reach the wire. distinct = distinct wire transcripts / distinct step sequences In the modifiers lane half of the delayed Search answers arrive in two parts (one entry at once, the result after the delay), so that a timeout set for a Search has to govern every wait of that Search, not only the first. Half of the requests-lane cases start with the ID counter somewhere else in 1..2^31-1 (in particular just below the octet boundaries of the INTEGER encoding), size/time limits and abandon IDs are drawn from those boundaries too, and the SearchOptions setters are called in a value-derived order.",
      claim="held on every generated call sequence of this run (per-operation counts in the evidence); all request types reached",
      design="3/C02", technique="wire-boundary monitor: independent strict RFC 4511 request decoder vs request model built from call arguments; modifier-history oracle on a paused clock",
      note=NETWORLD)
@@ -159,7 +182,7 @@ prop("C02",
 
 prop("C01",
      title="Responses are routed to the operation whose message ID they carry",
-     rule="per case one in-memory connection, 1-6 cloned handles each running 1-5 operations (all single-result kinds, search(), direct streaming searches read to the end) as concurrent tasks; the multiplexing server collects outstanding requests and answers them in a seeded random order, item by item, interleaving entries/references/intermediates of different searches with single results, every TLV in a random legal length form, bursts re-chunked whole / randomly / byte-by-byte / in halves with injected spurious Pending reads, and injects responses addressed to nobody (ID 0 incl. the Active Directory notice form, IDs of completed operations, unknown IDs). Every response element carries a unique token (wire ID, sequence); the value returned by each call must equal exactly the plan the server executed for the wire ID of that call's own request (joined through the request token), items in server order. hostile_ids lane: additionally responses whose INTEGER ID is outside 0..2^31-1 and aliases an outstanding ID after 32-bit truncation (must reach nobody; ending the connection with a decoding error is accepted). abandoned lane: streams and single operations abandoned in flight from a cloned handle while the server keeps sending under the abandoned ID. In a quarter of the cases a pilot stream holds an ID while the ID counter is positioned just below 2^31-1 so that allocation wraps during the run and IDs of completed operations are re-allocated (nobody-responses then use IDs from a band never allocated). routing_threads lane: the routing workload on multi-thread runtimes with 2-4 real OS worker threads and real time (true parallelism between handles, driver and server; a wall-clock expiry there is inconclusive). nested_searches lane: a user-defined adapter starts a nested Search on the same connection, configured with adapter_chain_tail(), while the outer Search (behind EntriesOnly) has already collected referrals; entries and folded-in referral URIs of each search must be exactly what the server sent under that search's own ID. Miri lane (thorough): all lanes at tiny size under the UB/data-race interpreter. non-trivial = more than one handle or interleaved operations; distinct = distinct (server send order, case) fingerprints; evidence also counts distinct driver select!-branch sequences observed through the H3 gauge stale_requests lane: while the driver is stuck writing one request (transport back-pressure), 1-3 further requests (streams, search() calls, single operations) are queued behind it and given up by their callers (with_timeout); once the transport flows again their IDs are handed out anew (counter positioned with the ID hook, also at the wrap-around point) to single-result operations, each of which must get the response the server sends under that ID. starttls_strays lane (real loopback TCP): while set_starttls(true) negotiates in the driver's single-operation mode the server sends 0-3 messages addressed to nobody (unsolicited notification, single-operation response or search entry for unknown IDs) before refusing StartTLS; the caller must get exactly the refusal sent under the StartTLS request's ID.",
+     rule="per case one in-memory connection, 1-6 cloned handles each running 1-5 operations (all single-result kinds, search(), direct streaming searches read to the end) as concurrent tasks; the multiplexing server collects outstanding requests and answers them in a seeded random order, item by item, interleaving entries/references/intermediates of different searches with single results, every TLV in a random legal length form, bursts re-chunked whole / randomly / byte-by-byte / in halves with injected spurious Pending reads, and injects responses addressed to nobody (ID 0 incl. the Active Directory notice form, IDs of completed operations, unknown IDs). Every response element carries a unique token (wire ID, sequence); the value returned by each call must equal exactly the plan the server executed for the wire ID of that call's own request (joined through the request token), items in server order. hostile_ids lane: additionally responses whose INTEGER ID is outside 0..2^31-1 and aliases an outstanding ID after 32-bit truncation (must reach nobody; ending the connection with a decoding error is accepted). abandoned lane: streams and single operations abandoned in flight from a cloned handle while the server keeps sending under the abandoned ID. In a quarter of the cases a pilot stream holds an ID while the ID counter is positioned just below 2^31-1 so that allocation wraps during the run and IDs of completed operations are re-allocated (nobody-responses then use IDs from a band never allocated). routing_threads lane: the routing workload on multi-thread runtimes with 2-4 real OS worker threads and real time (true parallelism between handles, driver and server; a wall-clock expiry there is inconclusive). nested_searches lane: a user-defined adapter starts a nested Search on the same connection, configured with adapter_chain_tail(), while the outer Search (behind EntriesOnly) has already collected referrals; entries and folded-in referral URIs of each search must be exactly what the server sent under that search's own ID. Miri lane (thorough): all lanes at tiny size under the UB/data-race interpreter. non-trivial = more than one handle or interleaved operations; distinct = distinct (server send order, case) fingerprints; evidence also counts distinct driver select!-branch sequences observed through the H3 gauge stale_requests lane: while the driver is stuck writing one request (transport back-pressure), 1-3 further requests (streams, search() calls, single operations) are queued behind it and given up by their callers (with_timeout); once the transport flows again their IDs are handed out anew (counter positioned with the ID hook, also at the wrap-around point) to single-result operations, each of which must get the response the server sends under that ID. starttls_strays lane (real loopback TCP): while set_starttls(true) negotiates in the driver's single-operation mode the server sends 0-3 messages addressed to nobody (unsolicited notification, single-operation response or search entry for unknown IDs) before refusing StartTLS; the caller must get exactly the refusal sent under the StartTLS request's ID. In the routing lanes a quarter of the next() calls of direct streams are first polled once and dropped when nothing is queued (what a select! whose other branch wins does), then repeated.",
      claim="held on every generated schedule of this run; the evidence lists routed responses, nobody-responses sent, distinct server orders and distinct driver branch sequences actually observed",
      design="3/C01", technique="history checker joining client-boundary return values with the scripted server's wire log through unique request/response tokens, under seeded response orders, chunkings and select! resolutions",
      note=NETWORLD)
@@ -199,7 +222,7 @@ prop("C16",
 
 prop("C12",
      title="Timeouts fire on time, keep the connection usable and orphan the late reply",
-     rule="paused virtual clock, so every time is exact to tokio's 1 ms timer granularity. Per case 1-4 cloned handles each run 1-6 operations concurrently: single operations and direct streaming searches, with no timeout, a timeout in {0,1,10,50,100,1000,60000,3600000} ms, or (1 in 12) an effectively infinite one (Duration::MAX, u64::MAX s, i64::MAX s) which must behave like no timeout; the scripted server answers after delays chosen around the deadline (T/2, T-1, T, T+1, 2T+5, fixed values, never), for searches with one such gap before every item and before Done. Every client event (response, item, end, timeout, finish) is recorded with its virtual time and compared with the expected timeline: response iff it arrives strictly before the deadline, at its arrival time; otherwise Timeout exactly at the deadline; for searches the deadline restarts at each received item (all gaps < T => everything delivered however long the total); arrival exactly at the deadline is a tie and not judged. A quarter of the searches run through the PagedResults adapter (page size 1-3; the page's result arrives half-way through the gap before the next item, so the wait for it and the wait for the next page's first item are two waits). stalled_driver lane: while the driver is stuck writing another handle's 2-100 KB request (transport back-pressure), a timed single operation, stream start or search() call must fail with Timeout exactly at its deadline and be cleaned up once the peer reads again. Afterwards (3 virtual hours later, every late reply has arrived): no returned value carries another operation's token, no ID is reserved (H2), the driver holds no routing entries (H3), the driver is still running, and after positioning the ID counter at 0 the next operation gets ID 1 and succeeds. non-trivial = cases in which at least one operation is expected to time out; distinct = distinct programs A quarter of the unpaged searches go through the collecting entry point Ldap::search(): expiry of the timeout during any wait is LdapError::Timeout, never a short result.",
+     rule="paused virtual clock, so every time is exact to tokio's 1 ms timer granularity. Per case 1-4 cloned handles each run 1-6 operations concurrently: single operations and direct streaming searches, with no timeout, a timeout in {0,1,10,50,100,1000,60000,3600000} ms, or (1 in 12) an effectively infinite one (Duration::MAX, u64::MAX s, i64::MAX s) which must behave like no timeout; the scripted server answers after delays chosen around the deadline (T/2, T-1, T, T+1, 2T+5, fixed values, never), for searches with one such gap before every item and before Done. Every client event (response, item, end, timeout, finish) is recorded with its virtual time and compared with the expected timeline: response iff it arrives strictly before the deadline, at its arrival time; otherwise Timeout exactly at the deadline; for searches the deadline restarts at each received item (all gaps < T => everything delivered however long the total); arrival exactly at the deadline is a tie and not judged. A quarter of the searches run through the PagedResults adapter (page size 1-3; the page's result arrives half-way through the gap before the next item, so the wait for it and the wait for the next page's first item are two waits). stalled_driver lane: while the driver is stuck writing another handle's 2-100 KB request (transport back-pressure), a timed single operation, stream start or search() call must fail with Timeout exactly at its deadline and be cleaned up once the peer reads again. Afterwards (3 virtual hours later, every late reply has arrived): no returned value carries another operation's token, no ID is reserved (H2), the driver holds no routing entries (H3), the driver is still running, and after positioning the ID counter at 0 the next operation gets ID 1 and succeeds. non-trivial = cases in which at least one operation is expected to time out; distinct = distinct programs A quarter of the unpaged searches go through the collecting entry point Ldap::search(): expiry of the timeout during any wait is LdapError::Timeout, never a short result. One search in three mixes references and intermediate responses among its entries (every received item restarts the timer, also the ones search()/EntriesOnly do not hand out); after a Timeout the stream is asked once more and must answer Ok(None) at once.",
      claim="held on every generated timing program of this run; counts of operations expected to time out, ties not judged and ID-reuse checks are in the evidence",
      design="3/C12", technique="virtual-time trace checker: client events timestamped on a paused clock compared with the timeline computed from the scripted reply delays; H2/H3 invariant at the final quiescent point",
      note=NETWORLD + "; 'on time' is a statement about virtual time")
@@ -207,7 +230,7 @@ prop("C12",
 
 prop("C05",
      title="In-flight operations never share a message ID; IDs stay within 1..2^31-1",
-     rule="wrap lane: for every subset of {1,2,3,4,MAX-3,MAX-2,MAX-1,MAX} (256 patterns) real pending operations are parked on exactly those IDs (single operations the server never answers, streaming searches that have already received 0-2 entries and are kept open, streams read to Done but not yet finished, or streams whose per-item timeout has fired but which are not yet finished; or PagedResults searches whose first page ended under the slot's ID and whose second page runs under an ID from a distant pen; finishing the ended streams later, after their old ID has been re-allocated to a new operation, must not release the new owner's ID (a paged stream releases its current page's ID only); the counter is positioned with hook H2 before each), then the counter is positioned at MAX-k for every k in 0..=8 and 2k+8 operations are issued, some answered, some left pending; parked operations also include streams abandoned through another handle whose reader comes back at the very end; before the probes a handle whose last operation completed long ago issues an Abandon with a zero timeout while that old ID belongs to a new pending operation; some operations time out at once and are followed, in the same poll, by a new operation for which the timed-out ID is the next candidate. Judged: every request's wire ID lies in 1..=2^31-1 and differs from the ID of every operation still outstanding; operations near the wrap point complete; and, as a probe at the end of every case, for each outstanding operation the counter is positioned just below its ID and one more operation is issued, which must not receive that ID (the allocator steps over IDs in use). The reference allocator (last+1, wrap MAX->1, skip in-use) and the library's ID table (H2) are compared in lock step as well but only counted: another allocation order or bookkeeping does not break the property. threads lane: 4-48 tasks on cloned handles on a multi-thread tokio runtime with 2-8 real worker threads issue server-answered and locally completing operations; the server holds replies until many requests are outstanding and releases them in one burst in random order so that all waiting tasks allocate at the same moment; it checks every arriving ID against the set of requests it has not yet answered (a third of the cases start just below the wrap point). Miri lane (thorough): the threads lane at tiny size under Miri's data-race detector and preemptive scheduler. non-trivial = cases whose allocations crossed the wrap point / all threaded cases Parked streams may have up to 3000 items which their reader has not read yet: a reader lagging behind still owns its ID.",
+     rule="wrap lane: for every subset of {1,2,3,4,MAX-3,MAX-2,MAX-1,MAX} (256 patterns) real pending operations are parked on exactly those IDs (single operations the server never answers, streaming searches that have already received 0-2 entries and are kept open, streams read to Done but not yet finished, or streams whose per-item timeout has fired but which are not yet finished; or PagedResults searches whose first page ended under the slot's ID and whose second page runs under an ID from a distant pen; finishing the ended streams later, after their old ID has been re-allocated to a new operation, must not release the new owner's ID (a paged stream releases its current page's ID only); the counter is positioned with hook H2 before each), then the counter is positioned at MAX-k for every k in 0..=8 and 2k+8 operations are issued, some answered, some left pending; parked operations also include streams abandoned through another handle whose reader comes back at the very end; before the probes a handle whose last operation completed long ago issues an Abandon with a zero timeout while that old ID belongs to a new pending operation; some operations time out at once and are followed, in the same poll, by a new operation for which the timed-out ID is the next candidate. Judged: every request's wire ID lies in 1..=2^31-1 and differs from the ID of every operation still outstanding; operations near the wrap point complete; and, as a probe at the end of every case, for each outstanding operation the counter is positioned just below its ID and one more operation is issued, which must not receive that ID (the allocator steps over IDs in use). The reference allocator (last+1, wrap MAX->1, skip in-use) and the library's ID table (H2) are compared in lock step as well but only counted: another allocation order or bookkeeping does not break the property. threads lane: 4-48 tasks on cloned handles on a multi-thread tokio runtime with 2-8 real worker threads issue server-answered and locally completing operations; the server holds replies until many requests are outstanding and releases them in one burst in random order so that all waiting tasks allocate at the same moment; it checks every arriving ID against the set of requests it has not yet answered (a third of the cases start just below the wrap point). Miri lane (thorough): the threads lane at tiny size under Miri's data-race detector and preemptive scheduler. non-trivial = cases whose allocations crossed the wrap point / all threaded cases Parked streams may have up to 3000 items which their reader has not read yet: a reader lagging behind still owns its ID. boundaries lane: the counter is positioned around 2^k, 2^k +- 2^(k-8) and 1.5*2^k for every k in 7..=30 and six operations are run across each point; the ID each request leaves with (read with a strict INTEGER decoder) must be the allocated one.",
      claim="held on every enumerated wrap pattern and every threaded run of this execution; exhaustive over the 256 x 9 parked-pattern/position grid; concurrency evidence lists requests checked and the peak number of simultaneously outstanding operations observed",
      design="3/C05", technique="lock-step executable allocator model over the wire log + H2 table; interval-overlap check at the server under real multi-threading; Miri race detector",
      note=NETWORLD + "; the threads lane uses real time and real OS threads (no paused clock)")
@@ -216,7 +239,7 @@ EXTRA_LANES["C05"] = [miri_lane()]
 
 prop("C11",
      title="Hostile or corrupt server bytes cannot crash or wedge the connection",
-     rule="inputs: random bytes; random bodies behind a plausible SEQUENCE header; structural single and double mutations of valid response messages of every type (element deleted/duplicated/appended, class or tag changed, constructed<->primitive swapped, emptied, primitive content replaced incl. widened/negative integers and non-UTF-8, children reversed); byte-level mutations (every length field +-1/+-big/other form, truncation, bit flips, byte replace/insert/delete); hand-picked classics (30 00, inner length exceeding outer, missing ID, empty BOOLEAN, unknown op for a search ID, malformed SearchResultDone); nesting up to depth 60. decoder and driver lanes run as child-process shards so that a process abort (allocation failure, abort-on-double-panic, stack overflow) becomes a verdict ('process-killed-by-signal') instead of taking the checker down. decoder lane (H4, real decode function, catch_unwind per input): a panic is a violation; 'need more' while the buffer already holds the outer TLV's announced length is a wedge. driver lane: a bind pending on ID 1 and a search (0-2 entries already delivered) on ID 2, then the hostile frame addressed to one of them, optionally followed by valid responses, then EOF: drive() must return without panicking, both callers must resolve under the virtual-time watchdog, a frame in which an inner element runs past the end of its container counts as not-an-envelope and may never be delivered; a complete well-formed envelope addressed to the pending bind or search must be delivered to it or end the connection by the next quiescence barrier (never silently swallowed); a complete non-envelope frame must already have ended the connection at the next quiescence barrier (before any further byte or EOF arrives), and a frame that is not an envelope (outer not a universal SEQUENCE, <2 elements, first element not an INTEGER in 0..2^31-1) must end the connection with an error both callers observe. stack lane: child processes decode and drive nested TLVs (three shapes) of depth 10..250000 (up to ~1 MB) on 2 MiB thread stacks; death by signal is a violation, inability to spawn is inconclusive. distinct = distinct input byte strings",
+     rule="inputs: random bytes; random bodies behind a plausible SEQUENCE header; structural single and double mutations of valid response messages of every type (element deleted/duplicated/appended, class or tag changed, constructed<->primitive swapped, emptied, primitive content replaced incl. widened/negative integers and non-UTF-8, children reversed); byte-level mutations (every length field +-1/+-big/other form, truncation, bit flips, byte replace/insert/delete); hand-picked classics (30 00, inner length exceeding outer, missing ID, empty BOOLEAN, unknown op for a search ID, malformed SearchResultDone); nesting up to depth 60. decoder and driver lanes run as child-process shards so that a process abort (allocation failure, abort-on-double-panic, stack overflow) becomes a verdict ('process-killed-by-signal') instead of taking the checker down. decoder lane (H4, real decode function, catch_unwind per input): a panic is a violation; 'need more' while the buffer already holds the outer TLV's announced length is a wedge. driver lane: a bind pending on ID 1 and a search (0-2 entries already delivered) on ID 2, then the hostile frame addressed to one of them, optionally followed by valid responses, then EOF: drive() must return without panicking, both callers must resolve under the virtual-time watchdog, a frame in which an inner element runs past the end of its container counts as not-an-envelope and may never be delivered; a complete well-formed envelope addressed to the pending bind or search must be delivered to it or end the connection by the next quiescence barrier (never silently swallowed); a complete non-envelope frame must already have ended the connection at the next quiescence barrier (before any further byte or EOF arrives), and a frame that is not an envelope (outer not a universal SEQUENCE, <2 elements, first element not an INTEGER in 0..2^31-1) must end the connection with an error both callers observe. stack lane: child processes decode and drive nested TLVs (three shapes) of depth 10..250000 (up to ~1 MB) on 2 MiB thread stacks; death by signal is a violation, inability to spawn is inconclusive. distinct = distinct input byte strings starttls_garbage lane (real loopback TCP): the server answers the StartTLS request of set_starttls(true) with bytes that are complete by their own outer length and not an LDAPMessage (7 fixed shapes + generated ones) and then stays silent with the socket open; connection setup must fail, not wait.",
      claim="held on every hostile input of this run (no decoder or driver panic, no wedge, no hang, no stack overflow up to the probed depth); caller-side panics on malformed single-operation results are counted here and judged by C04's malformed_results lane",
      design="3/C11", technique="mutation-based hostile-input monitor on the real decoder (catch_unwind) and the real driver (virtual-time watchdog), plus a subprocess stack probe",
      note=NETWORLD + "; 'complete frame' is judged by the harness' own BER header parser; first bytes with tag number 31 are not judged for wedging")
@@ -240,7 +263,7 @@ prop("C19",
 
 prop("C18", timeout_quick=1500,
      title="Connection setup honours the URL and fails cleanly on bad input",
-     rule="real loopback sockets: TCP listeners on 127.0.0.1/[::1] ports 389 and 636 (the sandbox runs as root), ephemeral ports, a listener that reads and never answers, a port with no listener, and Unix socket listeners at generated paths (plain; with space, '%', non-ASCII and ':' needing percent-encoding). An enumerated table of (URL, StartTLS, timeout, pre-opened TCP/Unix/Invalid stream) cases with the expected outcome derived from the property: explicit host/port (incl. explicit ports equal to the other scheme's default: ldaps://h:389, ldap://h:636), default ports 389/636, missing or empty host = localhost (ldap:///, ldap://, ldap:), IPv6 literal, ldapi percent-decoding, empty and port-bearing ldapi paths, unknown schemes (also with StartTLS enabled and without a timeout), ldaps with and without the StartTLS flag against a listener that records the first byte it receives (must be a TLS handshake record), unparsable URLs, refused port, pre-opened stream used iff its type matches the scheme (and then no new connection is made; an Invalid or TCP-typed stream with an ldapi URL naming a LIVE socket must fail, not fall back to connecting by path), connection timeout bounding StartTLS / TLS handshake against a silent server, effectively infinite connection timeouts (Duration::MAX, u64::MAX s) on reachable, refused and unknown-scheme URLs, TLS establishment through ldaps:/// and ldap:/// + StartTLS (pre-opened stream) against a server whose trusted certificate names localhost; plus 300 seeded fuzzed scheme/separator/host/port/path/settings combinations for which only 'no panic, no hang' is required. Every case runs through LdapConnAsync::with_settings and LdapConn::with_settings; the oracle compares Ok/Err/panic and WHICH listener received a connection. distinct = distinct (URL, settings, API) cases StartTLS answered with a non-success code (10, 2, 52) must fail the setup with that result; zero and 1 ms connection timeouts against a silent StartTLS / TLS endpoint must fail with Timeout like any other value.",
+     rule="real loopback sockets: TCP listeners on 127.0.0.1/[::1] ports 389 and 636 (the sandbox runs as root), ephemeral ports, a listener that reads and never answers, a port with no listener, and Unix socket listeners at generated paths (plain; with space, '%', non-ASCII and ':' needing percent-encoding). An enumerated table of (URL, StartTLS, timeout, pre-opened TCP/Unix/Invalid stream) cases with the expected outcome derived from the property: explicit host/port (incl. explicit ports equal to the other scheme's default: ldaps://h:389, ldap://h:636), default ports 389/636, missing or empty host = localhost (ldap:///, ldap://, ldap:), IPv6 literal, ldapi percent-decoding, empty and port-bearing ldapi paths, unknown schemes (also with StartTLS enabled and without a timeout), ldaps with and without the StartTLS flag against a listener that records the first byte it receives (must be a TLS handshake record), unparsable URLs, refused port, pre-opened stream used iff its type matches the scheme (and then no new connection is made; an Invalid or TCP-typed stream with an ldapi URL naming a LIVE socket must fail, not fall back to connecting by path), connection timeout bounding StartTLS / TLS handshake against a silent server, effectively infinite connection timeouts (Duration::MAX, u64::MAX s) on reachable, refused and unknown-scheme URLs, TLS establishment through ldaps:/// and ldap:/// + StartTLS (pre-opened stream) against a server whose trusted certificate names localhost; plus 300 seeded fuzzed scheme/separator/host/port/path/settings combinations for which only 'no panic, no hang' is required. Every case runs through LdapConnAsync::with_settings and LdapConn::with_settings; the oracle compares Ok/Err/panic and WHICH listener received a connection. distinct = distinct (URL, settings, API) cases StartTLS answered with a non-success code (10, 2, 52) must fail the setup with that result; zero and 1 ms connection timeouts against a silent StartTLS / TLS endpoint must fail with Timeout like any other value. Unknown schemes are crossed with everything that would do for ldapi (host = percent-encoded path of a live socket, pre-opened Unix stream, no host) and with a pre-opened TCP stream; an endpoint that neither accepts nor refuses the TCP connection (zero-backlog listener with a full accept queue) must make a 400 ms connection timeout fire. Async setup calls run as tasks of their own so that a blocking call cannot disable the guard.",
      claim="held on the enumerated matrix and the fuzzed combinations of this run; real time is used only for hang detection: a setup call still pending after 8 s is retried once alone with a 40 s guard and only a call pending both times is a hang; a call that returns late is inconclusive, a port that cannot be bound makes its cases inconclusive",
      design="3/C18", technique="listener-attribution monitor on real loopback/Unix sockets over an enumerated URL x settings matrix plus URL fuzzing with panic capture",
      note="needs to bind 127.0.0.1:389/636 (root); runs are serialised with a lock file; scratch sockets live under /tmp for the duration of the run only")
@@ -256,11 +279,11 @@ prop("C14",
 
 prop("C17",
      title="Requested TLS is never silently downgraded",
-     rule="real loopback TCP with a harness server = raw cleartext tap + native-tls acceptor using certificates minted by certs/gen.sh (trusted for localhost/127.0.0.1 through SSL_CERT_FILE, wrong-name, untrusted CA, self-signed). Full matrix {ldap+StartTLS, ldaps, ldaps with the StartTLS flag} x {no_tls_verify on/off} x {host name, IP literal, no host in the URL with a pre-opened stream} x {6 orders of the settings builder calls} x {settings used directly / through clone()} x {library-opened connection / pre-opened TCP stream with a host in the URL} x {plain URL / URL with DN, query and a bindname extension}; certificates also include one issued by the trusted CA for IP 127.0.0.1 only (must be refused for the name localhost however the connection was opened); refusal codes include multiples of 256; TLS-requesting URLs with a pre-opened Unix stream must fail without writing anything x server behaviours {TLS with each certificate, StartTLS refused with sampled non-zero codes (always incl. referral code 10, which ExopResult::non_error() would accept), StartTLS refused but the server then performs a TLS handshake anyway, a well-formed envelope whose StartTLS result cannot be decoded (5 shapes) followed by a server-side handshake, garbage answer, well-formed non-extended answer, close, forged cleartext LDAP responses (for the IDs the client will use next, 1-64 copies) in the same segment as the StartTLS success, forged cleartext in a later segment}; after establishment two binds are issued which the server answers INSIDE TLS with rc 49. Oracle: every cleartext byte the server received is exactly one StartTLS ExtendedRequest (ldaps: first bytes are a TLS handshake record) and no LDAP message follows it in the clear; establishment returns Err when StartTLS is not success, the answer is garbage/closed, or the certificate must not verify (unless verification is disabled); a returned handle implies a completed handshake; no operation result carries the forged cleartext token or anything not sent inside TLS. thorough adds a valgrind memcheck pass over the OpenSSL FFI path. distinct = distinct matrix cells (x repetitions with different refusal codes / injection sizes) Further behaviours: the server never answers the StartTLS request and the client gives up (connection timeout of 400 ms, or the caller drops the connect future): the server keeps listening for 1.5 s and must not see another LDAP message in the clear; a third of the verification-on cases build their settings with set_no_tls_verify(true) followed by set_no_tls_verify(false).",
+     rule="real loopback TCP with a harness server = raw cleartext tap + native-tls acceptor using certificates minted by certs/gen.sh (trusted for localhost/127.0.0.1 through SSL_CERT_FILE, wrong-name, untrusted CA, self-signed). Full matrix {ldap+StartTLS, ldaps, ldaps with the StartTLS flag} x {no_tls_verify on/off} x {host name, IP literal, no host in the URL with a pre-opened stream} x {6 orders of the settings builder calls} x {settings used directly / through clone()} x {library-opened connection / pre-opened TCP stream with a host in the URL} x {plain URL / URL with DN, query and a bindname extension}; certificates also include one issued by the trusted CA for IP 127.0.0.1 only (must be refused for the name localhost however the connection was opened); refusal codes include multiples of 256; TLS-requesting URLs with a pre-opened Unix stream must fail without writing anything x server behaviours {TLS with each certificate, StartTLS refused with sampled non-zero codes (always incl. referral code 10, which ExopResult::non_error() would accept), StartTLS refused but the server then performs a TLS handshake anyway, a well-formed envelope whose StartTLS result cannot be decoded (5 shapes) followed by a server-side handshake, garbage answer, well-formed non-extended answer, close, forged cleartext LDAP responses (for the IDs the client will use next, 1-64 copies) in the same segment as the StartTLS success, forged cleartext in a later segment}; after establishment two binds are issued which the server answers INSIDE TLS with rc 49. Oracle: every cleartext byte the server received is exactly one StartTLS ExtendedRequest (ldaps: first bytes are a TLS handshake record) and no LDAP message follows it in the clear; establishment returns Err when StartTLS is not success, the answer is garbage/closed, or the certificate must not verify (unless verification is disabled); a returned handle implies a completed handshake; no operation result carries the forged cleartext token or anything not sent inside TLS. thorough adds a valgrind memcheck pass over the OpenSSL FFI path. distinct = distinct matrix cells (x repetitions with different refusal codes / injection sizes) Further behaviours: the server never answers the StartTLS request and the client gives up (connection timeout of 400 ms, or the caller drops the connect future): the server keeps listening for 1.5 s and must not see another LDAP message in the clear; a third of the verification-on cases build their settings with set_no_tls_verify(true) followed by set_no_tls_verify(false). Refusals are also sent without a responseName and under foreign OIDs (Notice of Disconnection, arbitrary) by a server that then goes along with a handshake. features lane: the matrix is repeated (on both tiers, a third of the size) with the harness and ldap3 rebuilt with --no-default-features --features sync,tls-native, i.e. the TLS backend named directly instead of through the alias feature `tls`.",
      claim="held on every cell of the matrix in this run; establishment hangs bounded by the 6 s connection timeout are inconclusive, not violations",
-     design="3/C17", technique="wire-tap monitor on real loopback TLS: cleartext byte oracle + establishment-outcome table + forged-response tokens; valgrind memcheck for the native TLS path",
+     design="3/C17", technique="wire-tap monitor on real loopback TLS: cleartext byte oracle + establishment-outcome table + forged-response tokens; valgrind memcheck for the native TLS path; the matrix repeated on a second build with another legal cargo feature selection",
      note="needs loopback TCP and the openssl CLI at setup time; trust is injected with SSL_CERT_FILE (honoured by the default native-tls connector); tls-rustls feature code is not built in this configuration and is out of reach")
-EXTRA_LANES["C17"] = [valgrind_lane()]
+EXTRA_LANES["C17"] = [features_lane("matrix", "backend-named-directly", "backend_named_directly"), valgrind_lane()]
 
 EXTRA_LANES["C01"] = [miri_lane()]
 # the same workloads (tiny) under the UB / data-race interpreter for the lanes that run without real
